@@ -119,6 +119,7 @@ func TestTrace(t *testing.T) {
 				g.Big = save
 			}
 			vstr := e.DumpStruct(p)
+			vsegs := e.DumpSegs(p)
 			er := e.Encode(p)
 			if er.Panic != "" {
 				fmt.Fprintf(w, "X %d %d encode-panic %s %s\n", e.Pi, e.Mi, vstr, strconv.Quote(er.Panic))
@@ -126,7 +127,7 @@ func TestTrace(t *testing.T) {
 			}
 			b := er.Wire.Join()
 			fmt.Fprintf(w, "E %d %d %s %s %d\n", e.Pi, e.Mi, vstr, hexOrDash(b), er.Length)
-			e.emitEW(w, p, er)
+			e.emitEW(w, vsegs, er)
 			if !er.PlanOK {
 				fmt.Fprintf(w, "X %d %d wireplan-mismatch %s plan=%v\n", e.Pi, e.Mi, vstr, er.Plan)
 			}
